@@ -5,6 +5,12 @@
 // triplets, section-4 bound.
 #include <common/vh_lafem.hpp>
 #include <kernel/lafem/transfer.hpp>
+#include <kernel/lafem/vector_mirror.hpp>
+#include <kernel/global/gate.hpp>
+#include <kernel/global/muxer.hpp>
+#include <kernel/global/vector.hpp>
+#include <kernel/global/transfer.hpp>
+#include <kernel/util/dist.hpp>
 #include <limits>
 
 namespace
@@ -166,6 +172,45 @@ namespace
     c.event();
     if(vl::container_hash(xf.get_mat_prol()) != hp || vl::container_hash(xf.get_mat_rest()) != hr || (has_trunc && vl::container_hash(xf.get_mat_trunc()) != ht))
       c.viol("transfer.apply", "input-modified", vh::J().kv("what", "transfer matrices changed by rest/prol/trunc").str());
+
+    // ---- the same object inside a Global::Transfer on one process: without a muxer, and with a coarse-level muxer of
+    //      which this process is the only child AND the parent (the layer-boundary branch of rest / prol / trunc; join and
+    //      split through identity mirrors are exact copies) -- results bitwise those of the local transfer
+    {
+      typedef FEAT::LAFEM::VectorMirror<DT, Index> Mir;
+      typedef FEAT::Global::Gate<VecT, Mir> GGate; typedef FEAT::Global::Muxer<VecT, Mir> GMux;
+      typedef FEAT::Global::Vector<VecT, Mir> GVec; typedef FEAT::Global::Transfer<XferT, Mir> GTrans;
+      FEAT::Dist::Comm comm = FEAT::Dist::Comm::world();
+      GGate gate_f(comm), gate_c(comm);
+      gate_f.compile(VecT(nf)); gate_c.compile(VecT(nc));
+      for(int with_muxer = 0; with_muxer < 2 && nc > 0 && nf > 0; ++with_muxer)
+      {
+        GMux muxer;
+        if(with_muxer) { muxer.set_parent(&comm, 0, Mir::make_identity(nc)); muxer.push_child(Mir::make_identity(nc)); muxer.compile(VecT(nc)); }
+        GTrans gt(with_muxer ? &muxer : nullptr, xf.clone(FEAT::LAFEM::CloneMode::Deep));
+        const char* mtag = with_muxer ? "muxer:self" : "muxer:none";
+        for(int what = 0; what < (has_trunc ? 3 : 2); ++what)
+        {
+          const vl::MatSpec& M = what == 0 ? R : (what == 1 ? P : T);
+          const char* op = what == 0 ? "global_transfer.rest" : (what == 1 ? "global_transfer.prol" : "global_transfer.trunc");
+          int gcls = int(r.below(IN_COUNT));
+          std::vector<double> x = gen_input<DT>(r, M, gcls);
+          VecT vin = vl::make_dv<DT, Index>(x);
+          VecT loc(what == 1 ? nf : nc, DT(-3)); GVec gin(what == 1 ? &gate_c : &gate_f, vin.clone()), gout(what == 1 ? &gate_f : &gate_c, what == 1 ? nf : nc);
+          gout.local().format(DT(777));
+          bool rl = false, rg = false;
+          if(what == 0) { rl = xf.rest(vin, loc); rg = gt.rest(gin, gout); }
+          else if(what == 1) { rl = xf.prol(loc, vin); rg = gt.prol(gout, gin); }
+          else { rl = xf.trunc(vin, loc); rg = gt.trunc(gin, gout); }
+          c.event();
+          if(rl != rg) c.viol(op, "return", vh::J().kv("local", rl).kv("global", rg).str(), {mtag});
+          const DT* a = loc.elements(); const DT* b = gout.local().elements();
+          for(Index i = 0; i < loc.size(); ++i)
+            if(std::memcmp(&a[i], &b[i], sizeof(DT)) != 0 && !(a[i] != a[i] && b[i] != b[i]))
+            { c.viol(op, "differs-from-local-transfer", vh::J().kv("component", (unsigned long)i).kv("got", (double)b[i]).kv("expected", (double)a[i]).str(), {mtag}); break; }
+        }
+      }
+    }
   }
 }
 
